@@ -772,27 +772,24 @@ theorem expand_fuel (ms : Macros) (hk : ∀ p ∈ ms, p.2.dir.kind ≠ Gen.Kind.
           · split
             · simp
             · rename_i m hm
+              have hmem := get?_mem hm
+              have hnp : d.name ∉ path := fun hin => hac _ (hreach _ hin)
+              have hedge : ∀ n ∈ pastes.pastesL m.kids, ∃ m', ms.get? d.name = some m' ∧ n ∈ pastes m' :=
+                fun n hn => ⟨m, hm, by rw [pastes_of_not_paste (hk _ hmem)]; exact hn⟩
+              have h1 := ihL (d.name :: path) (some (outer.getD d.id)) st m.kids
+                (by
+                  intro n hn p hp
+                  rcases List.mem_cons.mp hp with rfl | hp
+                  · exact .single (hedge n hn)
+                  · exact .tail (hreach p hp) (hedge n hn))
+                (by
+                  have := unv_visit hmem hnp
+                  have := treeSize_kids m
+                  omega)
               split
+              · rename_i he; exact absurd he h1
               · simp
-              · rename_i rules' _
-                have hmem := get?_mem hm
-                have hnp : d.name ∉ path := fun hin => hac _ (hreach _ hin)
-                have hedge : ∀ n ∈ pastes.pastesL m.kids, ∃ m', ms.get? d.name = some m' ∧ n ∈ pastes m' :=
-                  fun n hn => ⟨m, hm, by rw [pastes_of_not_paste (hk _ hmem)]; exact hn⟩
-                have h1 := ihL (d.name :: path) (some (outer.getD d.id)) { st with rules := rules' } m.kids
-                  (by
-                    intro n hn p hp
-                    rcases List.mem_cons.mp hp with rfl | hp
-                    · exact .single (hedge n hn)
-                    · exact .tail (hreach p hp) (hedge n hn))
-                  (by
-                    have := unv_visit hmem hnp
-                    have := treeSize_kids m
-                    omega)
-                split
-                · rename_i he; exact absurd he h1
-                · simp
-                · simp
+              · simp
       · rename_i hkd
         simp only [hkd] at hreach
         split
@@ -1276,23 +1273,19 @@ theorem expand_succ (ms : Macros) : ∀ fuel : Nat,
             | none => simpa [hm] using h
             | some m =>
               simp only [hm] at h ⊢
-              cases hce : collectEnums st.rules m.kids with
-              | error e => simpa [hce] using h
-              | ok rules' =>
-                simp only [hce] at h ⊢
-                cases hl : expandList ms fuel (some (outer.getD d.id)) { st with rules := rules' } m.kids with
-                | error e =>
-                  rw [hl] at h
-                  have he : (Except.error e : Except PasteErr PState) ≠ .error .fuel := by
-                    intro hc
-                    cases hc
-                    exact hr h.symm
-                  rw [ihL _ _ _ _ hl he]
-                  exact h
-                | ok st' =>
-                  rw [hl] at h
-                  rw [ihL _ _ _ _ hl (by simp)]
-                  exact h
+              cases hl : expandList ms fuel (some (outer.getD d.id)) st m.kids with
+              | error e =>
+                rw [hl] at h
+                have he : (Except.error e : Except PasteErr PState) ≠ .error .fuel := by
+                  intro hc
+                  cases hc
+                  exact hr h.symm
+                rw [ihL _ _ _ _ hl he]
+                exact h
+              | ok st' =>
+                rw [hl] at h
+                rw [ihL _ _ _ _ hl (by simp)]
+                exact h
       · simp only [hk, Bool.false_eq_true, if_false] at h ⊢
         cases hp : place st.ctx.frames st.ctx.roots d with
         | error e => simpa [hp] using h
